@@ -150,6 +150,8 @@ def ob_list_batch(batch):
         for k in ("paths", "branches", "checks", "claims"):
             agg[k] += d[k]
         agg["solver_s"] += d["solver_s"]
+        from vk import sym as _sym
+        _sym.merge_xcheck(agg, d)
         for c in d["cexs"]:
             c["items"], c["n"] = items, n
             agg["cexs"].append(c)
@@ -529,6 +531,8 @@ def ob_tree_batch(batch):
         for k in ("paths", "branches", "checks", "claims"):
             agg[k] += d[k]
         agg["solver_s"] += d["solver_s"]
+        from vk import sym as _sym
+        _sym.merge_xcheck(agg, d)
         if d.get("notes", {}).get("compile_error"):
             agg["compile_errors"] += 1
         for c in d["cexs"]:
